@@ -387,7 +387,7 @@ pub fn run(ctx: &RunCtx) -> i32 {
     }
     let (cap, max_bound, random_after, programs) = match ctx.tier {
         Tier::Quick => (3000u64, 2usize, 300u64, 192u32),
-        Tier::Thorough => (20_000, 3, 2000, 320),
+        Tier::Thorough => (40_000, 3, 3000, 1200),
     };
     let known_open = crate::findings::open_for("C16").iter().any(|f| f.trigger == "memfs:session-open-then-publish");
     let (stats, failure) = run_sharded(ctx, "programs", programs, program_strategy, |p, st, counting| {
